@@ -657,6 +657,11 @@ func judge(c *cctx, m omode, r *result) ostats {
 // plumbing
 
 var node *hk.HNode
+
+// strictBroadcast (VERIF_C02_STRICT_EVENTS=1) also demands exactly-once for event publications and log messages
+// to a subscriber / logger process with a bounded mailbox, where the framework drops silently although the
+// publisher got nil.  Off by default: the publisher's result is not a per-subscriber result.
+var strictBroadcast = os.Getenv("VERIF_C02_STRICT_EVENTS") == "1"
 var nameSeq atomic.Int64
 
 func uniq(prefix string) gen.Atom {
